@@ -315,3 +315,149 @@ Proof.
   rewrite !adjust_opt_ok in H by assumption. cbn [bindo] in H.
   inversion H. unfold with_path. fold pe ps s0. rewrite nlen_app, Ls0. rewrite <- app_assoc. reflexivity.
 Qed.
+
+(* ---------- inside the class the segment is NOT appended: the class is exact ---------- *)
+Lemma nlen_nfirstn_le_len n l : nlen (nfirstn n l) <= nlen l.
+Proof. unfold nlen, nfirstn. rewrite firstn_length. lia. Qed.
+
+Lemma pop_path_len st ps s s' : pop_path st ps s = POk s' -> nlen s' <= nlen s.
+Proof.
+  unfold pop_path. destruct (ps <? nlen s); [|intros H; inversion H; lia].
+  destruct (rfind 47 (nskipn ps s)) as [sp|]; [|discriminate].
+  destruct (st_is_file st && is_normalized_wdl (nskipn (ps + sp + 1) s)); intros H; inversion H; [lia|].
+  unfold truncate. apply nlen_nfirstn_le_len.
+Qed.
+
+Lemma shorten_path_len st ps s s' : shorten_path st ps s = POk s' -> nlen s' <= nlen s.
+Proof.
+  unfold shorten_path. destruct (nlen s =? ps); [intros H; inversion H; lia|].
+  destruct (st_is_file st && is_normalized_wdl (nskipn ps s)); [intros H; inversion H; lia|]. apply pop_path_len.
+Qed.
+
+Lemma finish_double_dot_len dbg st ps x hh s' hh' :
+  finish_segment dbg st ps (x ++ [46; 46]) (nlen x) false hh = POk (s', hh') -> nlen s' <= nlen x.
+Proof.
+  unfold finish_segment. rewrite slice_o_some by (rewrite nlen_app; lia). cbn [of_option pbind].
+  rewrite nskipn_app_exact. rewrite nfirstn_all by (rewrite nlen_app; lia).
+  change (is_double_dot [46; 46]) with true. cbv iota.
+  match goal with |- pbind ?c _ = _ -> _ => destruct c as [[]| |]; cbn [pbind]; try discriminate end.
+  unfold truncate. rewrite nfirstn_app_exact. cbn [andb].
+  match goal with |- pbind (shorten_path st ps ?s2) _ = _ -> _ =>
+    assert (nlen s2 <= nlen x) as L2
+      by (destruct (ends_with_byte 47 x && last_slash_can_be_removed x ps); [apply nlen_nfirstn_le_len | lia]);
+    destruct (shorten_path st ps s2) as [s3| |] eqn:Es; cbn [pbind]; try discriminate end.
+  apply shorten_path_len in Es. intros H. inversion H; subst. lia.
+Qed.
+
+Lemma finish_single_dot dbg st ps x hh :
+  finish_segment dbg st ps (x ++ [46]) (nlen x) false hh = POk (if ends_with_byte 47 x then x else x ++ [47], hh).
+Proof.
+  unfold finish_segment. rewrite slice_o_some by (rewrite nlen_app; lia). cbn [of_option pbind].
+  rewrite nskipn_app_exact. rewrite nfirstn_all by (rewrite nlen_app; lia).
+  change (is_double_dot [46]) with false. change (is_single_dot [46]) with true. cbv iota.
+  unfold truncate. rewrite nfirstn_app_exact. reflexivity.
+Qed.
+
+Lemma seg_text_dot st seg : strip_tnl seg = [46] -> seg_text st seg = [46].
+Proof.
+  intros E. unfold seg_text. rewrite E. destruct (seg_set_facts st) as (_ & F46 & _).
+  change (utf8_encode [46]) with [46]. rewrite encode_cons. unfold enc1. rewrite F46. reflexivity.
+Qed.
+Lemma seg_text_dotdot st seg : strip_tnl seg = [46; 46] -> seg_text st seg = [46; 46].
+Proof.
+  intros E. unfold seg_text. rewrite E. destruct (seg_set_facts st) as (_ & F46 & _).
+  change (utf8_encode [46; 46]) with [46; 46]. rewrite !encode_cons. unfold enc1. rewrite F46. reflexivity.
+Qed.
+
+Theorem parse_path_segment_class dbg st ps x seg s' hh rem : st_is_file st = false -> usv_list seg ->
+  seg_skipped (strip_tnl seg) = true ->
+  parse_path dbg CPathSegmentSetter st true ps x seg = POk (s', hh, rem) -> s' <> x ++ seg_text st seg.
+Proof.
+  intros Hf Hu Hk H. unfold parse_path in H. rewrite (ppl_seg dbg st ps Hf seg x (nlen x) [] true) in H by exact Hu.
+  cbn [rev app] in H. fold (seg_text st seg) in H.
+  unfold seg_skipped in Hk. apply orb_true_iff in Hk. destruct Hk as [Hk|Hk]; apply list_eqb_spec in Hk.
+  - rewrite (seg_text_dot st seg Hk) in *. rewrite finish_single_dot in H. cbn [pbind] in H. inversion H; subst.
+    destruct (ends_with_byte 47 x); intros E.
+    + apply (f_equal nlen) in E. rewrite nlen_app in E. cbn in E. lia.
+    + apply app_inv_head in E. discriminate.
+  - rewrite (seg_text_dotdot st seg Hk) in *.
+    destruct (finish_segment dbg st ps (x ++ [46; 46]) (nlen x) false true) as [[s2 hh2]| |] eqn:Ef; cbn [pbind] in H; try discriminate.
+    apply finish_double_dot_len in Ef. inversion H; subst. intros E.
+    apply (f_equal nlen) in E. rewrite nlen_app in E. cbn in E. lia.
+Qed.
+
+(* push(seg) for a segment that extend does not skip: appended verbatim IFF outside the class *)
+Theorem push_class_exact dbg st s0 ps P seg s' : nlen s0 = ps -> st_is_file st = false -> usv_list seg ->
+  psm_extend_loop dbg st ps (s0 ++ P) [seg] = Some s' ->
+  (s' = s0 ++ push_text st P seg <-> known_c06_7 seg = false).
+Proof.
+  intros Hps Hf Hu H. split.
+  - intros E. destruct (known_c06_7 seg) eqn:K; [exfalso|reflexivity].
+    unfold known_c06_7 in K. apply andb_true_iff in K. destruct K as [K1 K2]. apply negb_true_iff in K1.
+    cbn [psm_extend_loop] in H. fold (seg_skipped seg) in H. rewrite K1 in H.
+    unfold push_text in E. rewrite K1 in E.
+    replace ((ps + 1 <? nlen (s0 ++ P)) || (nlen (s0 ++ P) =? ps)) with ((1 <? nlen P) || (nlen P =? 0)) in H
+      by (rewrite nlen_app, Hps; lia).
+    set (b := (1 <? nlen P) || (nlen P =? 0)) in *.
+    replace (if b then (s0 ++ P) ++ [47] else s0 ++ P) with (s0 ++ (if b then P ++ [47] else P)) in H
+      by (destruct b; [rewrite app_assoc|]; reflexivity).
+    destruct (parse_path dbg CPathSegmentSetter st true ps _ seg) as [[[s2 hh] rem]| |] eqn:Epp; cbn [unpres bindo] in H; try discriminate.
+    inversion H; subst s2. apply (parse_path_segment_class dbg st ps _ seg s' hh rem Hf Hu K2) in Epp.
+    apply Epp. rewrite E. rewrite app_assoc. reflexivity.
+  - intros K. rewrite (extend_loop_exact dbg st s0 ps Hps Hf [seg] P) in H by (repeat constructor; assumption).
+    inversion H. reflexivity.
+Qed.
+
+(* the old path is kept as a prefix by push / extend outside the class: no existing segment is touched *)
+Lemma push_text_prefix st P seg : exists t, push_text st P seg = P ++ t.
+Proof.
+  unfold push_text. destruct (seg_skipped seg); [exists []; rewrite app_nil_r; reflexivity|].
+  destruct ((1 <? nlen P) || (nlen P =? 0)); [rewrite <- app_assoc|]; eexists; reflexivity.
+Qed.
+Lemma extend_text_prefix st segs : forall P, exists t, extend_text st P segs = P ++ t.
+Proof.
+  induction segs as [|seg rest IH]; intros P; cbn [extend_text fold_left]; [exists []; rewrite app_nil_r; reflexivity|].
+  destruct (push_text_prefix st P seg) as (t1 & ->). destruct (IH (P ++ t1)) as (t2 & E). unfold extend_text in E. rewrite E.
+  rewrite <- app_assoc. eexists. reflexivity.
+Qed.
+
+(* ---------- witnesses ---------- *)
+(* http://h/a/b *)
+Definition w7_url : url := mkUrl [104;116;116;112;58;47;47;104;47;97;47;98] 4 7 7 8 HI_Domain None 8 None None.
+(* http://h/a/ *)
+Definition w7_popped : url := mkUrl [104;116;116;112;58;47;47;104;47;97;47] 4 7 7 8 HI_Domain None 8 None None.
+
+(* push(".<TAB>.") removes the segment "b"; push("..") is skipped; push(".<LF>") appends an empty segment
+   where push(".") is skipped; the "%2e" spellings are appended with the '%' escaped *)
+Lemma c06_7_witness :
+  wf_b w7_url = true /\ known_c06_7 [46; 9; 46] = true /\ known_c06_7 [46; 10] = true
+  /\ known_c06_7 [46; 46] = false /\ known_c06_7 [37; 50; 101; 9; 46] = false
+  /\ (forall dbg, path_segments_session dbg w7_url [PPush [46; 9; 46]] = Some (w7_popped, SOk))
+  /\ (forall dbg, path_segments_session dbg w7_url [PPush [46; 46]] = Some (w7_url, SOk))
+  /\ (forall dbg, path_segments_session dbg w7_url [PPush [46; 10]] = Some (with_path w7_url [47;97;47;98;47], SOk))
+  /\ (forall dbg, path_segments_session dbg w7_url [PPush [37; 50; 101; 9; 46]]
+                  = Some (with_path w7_url [47;97;47;98;47;37;50;53;50;101;46], SOk))
+  /\ path w7_popped = Some [47; 97; 47]
+  /\ w7_popped <> with_path w7_url (push_text (st_of w7_url) (path_text w7_url) [46; 9; 46]).
+Proof.
+  repeat split; try (vm_compute; reflexivity); try (intros []; vm_compute; reflexivity).
+  vm_compute. discriminate.
+Qed.
+
+(* the hypotheses of path_segments_session_exact are met by a non-trivial session *)
+Example session_exact_example :
+  wf_b w7_url = true /\ byte_eqb (ser w7_url) (scheme_end w7_url + 1) 47 = true /\ st_is_file (st_of w7_url) = false
+  /\ Forall psm_op_usv [PPush [120; 9; 121]; PExtend [[46; 46]; [99; 47; 37]; []]; PPop; PPush [233]]
+  /\ Forall psm_op_plain [PPush [120; 9; 121]; PExtend [[46; 46]; [99; 47; 37]; []]; PPop; PPush [233]]
+  /\ path_segments_session true w7_url [PPush [120; 9; 121]; PExtend [[46; 46]; [99; 47; 37]; []]; PPop; PPush [233]]
+     = Some (with_path w7_url [47;97;47;98;47;120;121;47;99;37;50;70;37;50;53;47;37;67;51;37;65;57], SOk)
+  /\ session_text (st_of w7_url) (path_text w7_url) [PPush [120; 9; 121]; PExtend [[46; 46]; [99; 47; 37]; []]; PPop; PPush [233]]
+     = [47;97;47;98;47;120;121;47;99;37;50;70;37;50;53;47;37;67;51;37;65;57].
+Proof.
+  split; [vm_compute; reflexivity|]. split; [vm_compute; reflexivity|]. split; [vm_compute; reflexivity|].
+  split; [repeat constructor; unfold is_usv; lia|].
+  split; [repeat constructor|]. split; vm_compute; reflexivity.
+Qed.
+
+Lemma path_text_is_path u : wf_b u = true -> path u = Some (path_text u).
+Proof. intros W. rewrite (path_eval u W). reflexivity. Qed.
